@@ -2,8 +2,33 @@
 #include <tins/tins.h>
 #include "replay_util.h"
 using namespace Tins;
-int main(int, char**) {
+int main(int argc, char** argv) {
     int bad = 0;
+    if (argc > 1) {
+        Replay r(argv[1]);
+        if (r.str("unit") == "icmpv6.encoder_size_rsa_signature") {
+            // an RSA signature option (RFC 3971) of the witness signature length, followed by an MTU option: through the wire both must come back
+            size_t n = (size_t)r.num("W_n", 6) % 300; if (n == 0) n = 6;
+            ICMPv6 p(ICMPv6::NEIGHBOUR_ADVERT);
+            ICMPv6::rsa_sign_type sig; for (int i = 0; i < 16; ++i) sig.key_hash[i] = (uint8_t)(i + 1);
+            for (size_t i = 0; i < n; ++i) sig.signature.push_back((uint8_t)(0x80 + i));
+            p.rsa_signature(sig);
+            p.mtu(ICMPv6::mtu_type(0, 1500));
+            std::vector<uint8_t> y = p.serialize();
+            printf("RSA signature of %zu octets + MTU option: %zu octets serialized, option sizes:", n, y.size());
+            for (ICMPv6::options_type::const_iterator it = p.options().begin(); it != p.options().end(); ++it) printf(" %zu", 2 + it->data_size());
+            printf("\n");
+            try {
+                ICMPv6 q(y.data(), (uint32_t)y.size());
+                if (q.options().size() != 2) { printf("DEFECT: %zu options read back, 2 were set (the RSA option's size is not a multiple of 8: its length octet cannot say it)\n", q.options().size()); return 1; }
+                ICMPv6::mtu_type m = q.mtu();
+                if (m.second != 1500) { printf("DEFECT: the MTU option behind the RSA signature reads back as %u\n", (unsigned)m.second); return 1; }
+                ICMPv6::rsa_sign_type back = q.rsa_signature();
+                if (back.signature.size() < n || !std::equal(sig.signature.begin(), sig.signature.end(), back.signature.begin())) { printf("DEFECT: signature differs\n"); return 1; }
+            } catch (const exception_base& e) { printf("DEFECT: re-parsing the serialization throws %s\n", e.what()); return 1; }
+            printf("ok\n"); return 0;
+        }
+    }
     for (int a = 0; a < 2; ++a) for (int l = 0; l < 2; ++l) {
         ICMPv6 p(ICMPv6::ROUTER_ADVERT);
         ICMPv6::prefix_info_type v(64, a, l, 0x01020304, 0x0a0b0c0d, "2001:db8::1");
